@@ -279,7 +279,7 @@ class ObtainQuantitySpec(FunctionSpec):
     def variants(self, tier):
         out = [(ck, pk) for ck in ("cat", "nocat") for pk in ("nocap", "cap")]
         # composing-map form: number of entries, caption, kind of the [unit, exp] pairs
-        # (three entries exceed the explorer's path budget of 4000 per variant; the shape bound is 2 in both tiers)
+        # (three entries exceed the explorer's path budget per variant; the shape bound is 2 in both tiers)
         for n in (1, 2):
             for pk in ("nocap", "cap"):
                 for pair in ("list", "tuple"):
